@@ -272,4 +272,8 @@ Definition ho_ok (i : ho_in) (o : ho_out) : bool :=
              end) on &&
   (if CommitSM.state_eqb st CommitSM.Building && retry then match f with [] => true | _ => false end
    else list_eqb zc_eqb f (C02Hist.observe_fchain fch)).
-Definition ho_judge := judge ho_model ho_oeqb ho_ok (fun _ => 0%N).
+(* known class 2 (F01b), as in part roots: a reader answer with a message whose header names another source chain *)
+Definition ho_known (i : ho_in) : N :=
+  let '(t, ranges, retry, env, nx, ex, (ans, addrs, zero, tbl), fch) := i in
+  roots_known (None, [], ans, addrs, zero, tbl).
+Definition ho_judge := judge ho_model ho_oeqb ho_ok ho_known.
